@@ -1260,4 +1260,459 @@ theorem decodeSubsetLoop_static_any (T : Tables) (edition s4max : Nat) :
         obtain ⟨st', out, fin, e, hfin, hlen⟩ := ih f ddo1 { st with r := r2 } (n2 :: done) (by simp at hf; omega) hrest
         exact ⟨st', out, fin, e, hfin, by rw [hlen]; simp; omega⟩
 
+/-! ### compressed character and associated-field columns (whole dataset) -/
+
+theorem readStrs_view (k : Nat) (hk : 0 < k) : ∀ (strs : List (List Nat)) (r : R) (rest : List Bool),
+    (∀ s ∈ strs, s.length = k) → RInv r → r.bits = strs.flatMap (fun s => s.flatMap (bitsMSB 8)) ++ rest →
+    ∃ r', readStrs r k strs.length = some (strs.map (fun s => s.map (· % 256)), r') ∧ r'.bits = rest ∧ RInv r' := by
+  intro strs
+  induction strs with
+  | nil => intro r rest _ hI hb; exact ⟨r, by simp [readStrs], by simpa using hb, hI⟩
+  | cons s ss ih =>
+    intro r rest hl hI hb
+    rw [List.flatMap_cons, List.append_assoc] at hb
+    have hsl := hl s (by simp)
+    have hne : s ≠ [] := by intro h; rw [h] at hsl; simp at hsl; omega
+    obtain ⟨r1, e1, hb1, hI1⟩ := getstring_view s r _ hI hne hb
+    rw [hsl] at e1
+    obtain ⟨r2, e2, hb2, hI2⟩ := ih r1 rest (fun x hx => hl x (by simp [hx])) hI1 hb1
+    refine ⟨r2, ?_, hb2, hI2⟩
+    simp only [List.length_cons, readStrs, e1, e2, List.map_cons]
+    simp
+
+/-- **constant character column** (`NBINC = 0`): every subset gets the reference string -/
+theorem getCcittCompressed_const (r : R) (cb : Node) (col : List Node) (g : Range) (cs : List Nat)
+    (rest : List Bool) (hI : RInv r) (hlen : cs.length = (cb.enc.nbits / 8).toNat) (hpos : 0 < cs.length)
+    (hb : r.bits = cs.flatMap (bitsMSB 8) ++ bitsMSB 6 0 ++ rest) :
+    ∃ r', getCcittCompressed r (cb :: col) g =
+        some (r', (cb :: col).map (fun n => { mkvalNode n with
+          val := (mkvalNode cb).val.setString (some (cs.map (· % 256))) (cb.enc.nbits / 8).toNat })) ∧
+      r'.bits = rest ∧ RInv r' := by
+  rw [List.append_assoc] at hb
+  have hne : cs ≠ [] := by intro h; rw [h] at hpos; simp at hpos
+  obtain ⟨r1, e1, hb1, hI1⟩ := getstring_view cs r _ hI hne hb
+  rw [hlen] at e1
+  obtain ⟨r2, e2, hb2, hI2⟩ := getbits_view r1 6 0 _ hI1 (by omega) (by omega) hb1
+  refine ⟨r2, ?_, hb2, hI2⟩
+  unfold getCcittCompressed
+  simp only [e1, e2]
+  simp
+
+/-- **listed character column** (`NBINC = octets`): subset `i` gets string `i`, whatever the
+reference string is -/
+theorem getCcittCompressed_listed (r : R) (cb : Node) (col : List Node) (g : Range) (r0 : List Nat) (k : Nat)
+    (strs : List (List Nat)) (rest : List Bool) (hI : RInv r)
+    (hlen : r0.length = (cb.enc.nbits / 8).toNat) (hpos : 0 < r0.length)
+    (hk0 : 0 < k) (hk : k < 64) (hk63 : k = 63 → cb.enc.nbits = 63 * 8)
+    (hfull : g.from_ ≤ 0) (hn : strs.length = g.nsub) (hsl : ∀ s ∈ strs, s.length = k)
+    (hb : r.bits = r0.flatMap (bitsMSB 8) ++ bitsMSB 6 k ++ strs.flatMap (fun s => s.flatMap (bitsMSB 8)) ++ rest) :
+    ∃ r', getCcittCompressed r (cb :: col) g =
+        some (r', zipWithStrs (fun n s => { mkvalNode n with
+          val := (mkvalNode n).val.setString (some s) ((mkvalNode n).enc.nbits / 8).toNat })
+          (cb :: col) (strs.map (fun s => s.map (· % 256)))) ∧
+      r'.bits = rest ∧ RInv r' := by
+  rw [List.append_assoc, List.append_assoc] at hb
+  have hne : r0 ≠ [] := by intro h; rw [h] at hpos; simp at hpos
+  obtain ⟨r1, e1, hb1, hI1⟩ := getstring_view r0 r _ hI hne hb
+  rw [hlen] at e1
+  obtain ⟨r2, e2, hb2, hI2⟩ := getbits_view r1 6 k _ hI1 (by omega) (by omega) hb1
+  have hk6 : k % 2^6 = k := Nat.mod_eq_of_lt (by omega)
+  rw [hk6] at e2
+  obtain ⟨r3, e3, hb3, hI3⟩ := readStrs_view k hk0 strs r2 rest hsl hI2 hb2
+  refine ⟨r3, ?_, hb3, hI3⟩
+  unfold getCcittCompressed
+  simp only [e1, e2]
+  have h63 : ¬ (k = 63 ∧ cb.enc.nbits ≠ 63 * 8) := by
+    intro ⟨a, b⟩; exact b (hk63 a)
+  have hk0' : ¬ k = 0 := by omega
+  have hf1 : ¬ g.from_ > 1 := by omega
+  have hf0 : ¬ g.from_ > 0 := by omega
+  have hcount : g.count = strs.length := by unfold Range.count; rw [if_neg hf0, hn]
+  simp only [h63, if_false, hk0', hf1, hf0, hcount, e3]
+  simp
+
+/-- **associated-field column**, constant -/
+theorem getAfCompressed_const (r : R) (cb : Node) (col : List Node) (g : Range) (r0 : Nat) (rest : List Bool)
+    (hI : RInv r) (haf : cb.enc.afNbits ≠ 0) (hw : 1 ≤ (mkvalNode cb).afW ∧ (mkvalNode cb).afW ≤ 64)
+    (hb : r.bits = bitsMSB (mkvalNode cb).afW r0 ++ bitsMSB 6 0 ++ rest) :
+    ∃ r', getAfCompressed r (cb :: col) g =
+        some (r', (cb :: col).map (fun n => { mkvalNode n with afBits := r0 % 2^(mkvalNode cb).afW })) ∧
+      r'.bits = rest ∧ RInv r' := by
+  rw [List.append_assoc] at hb
+  obtain ⟨r1, e1, hb1, hI1⟩ := getbits_view r _ r0 _ hI (by omega) (by omega) hb
+  obtain ⟨r2, e2, hb2, hI2⟩ := getbits_view r1 6 0 _ hI1 (by omega) (by omega) hb1
+  refine ⟨r2, ?_, hb2, hI2⟩
+  unfold getAfCompressed
+  simp only [haf, if_false, e1, e2]
+  simp
+
+/-- **associated-field column**, listed: subset `i` gets `R0 + increment_i` (no missing pattern) -/
+theorem getAfCompressed_listed (r : R) (cb : Node) (col : List Node) (g : Range) (r0 k : Nat) (incs : List Nat)
+    (rest : List Bool) (hI : RInv r) (haf : cb.enc.afNbits ≠ 0) (hw : 1 ≤ (mkvalNode cb).afW ∧ (mkvalNode cb).afW ≤ 64)
+    (hk0 : 0 < k) (hk : k < 64) (hfull : g.from_ ≤ 0) (hn : incs.length = g.nsub)
+    (hb : r.bits = bitsMSB (mkvalNode cb).afW r0 ++ bitsMSB 6 k ++ incs.flatMap (bitsMSB k) ++ rest) :
+    ∃ r', getAfCompressed r (cb :: col) g =
+        some (r', zipWithNodes (fun n v => { mkvalNode n with afBits := v + r0 % 2^(mkvalNode cb).afW })
+          (cb :: col) (incs.map (· % 2^k))) ∧
+      r'.bits = rest ∧ RInv r' := by
+  rw [List.append_assoc, List.append_assoc] at hb
+  obtain ⟨r1, e1, hb1, hI1⟩ := getbits_view r _ r0 _ hI (by omega) (by omega) hb
+  obtain ⟨r2, e2, hb2, hI2⟩ := getbits_view r1 6 k _ hI1 (by omega) (by omega) hb1
+  have hk6 : k % 2^6 = k := Nat.mod_eq_of_lt (by omega)
+  rw [hk6] at e2
+  obtain ⟨r3, e3, hb3, hI3⟩ := readIncs_view k hk0 (by omega) incs r2 rest hI2 hb2
+  refine ⟨r3, ?_, hb3, hI3⟩
+  unfold getAfCompressed
+  have hk0' : ¬ k = 0 := by omega
+  have hf1 : ¬ g.from_ > 1 := by omega
+  have hf0 : ¬ g.from_ > 0 := by omega
+  have hcount : g.count = incs.length := by unfold Range.count; rw [if_neg hf0, hn]
+  simp only [haf, if_false, e1, e2, hk0', hf1, hf0, hcount, e3]
+  simp
+
+theorem zipWithNodes_congr (f g : Node → Nat → Node) : ∀ (ns : List Node) (vs : List Nat),
+    (∀ n, ∀ v ∈ vs, f n v = g n v) → zipWithNodes f ns vs = zipWithNodes g ns vs := by
+  intro ns
+  induction ns with
+  | nil => intro vs _; cases vs <;> simp [zipWithNodes]
+  | cons n ns ih =>
+    intro vs h
+    cases vs with
+    | nil => simp [zipWithNodes]
+    | cons v vs =>
+      simp only [zipWithNodes]
+      rw [h n v (by simp), ih vs (fun m x hx => h m x (by simp [hx]))]
+
+/-! ### associated-field column: writer and round trip -/
+
+/-- the plan of `bufr_put_af_compressed` -/
+def encAfCol (vals : List Nat) : Nat × Nat × List Nat :=
+  let umin := listMin vals 0
+  let umax := listMax vals 0
+  if umin = umax then (umin, 0, []) else (umin, valueNbits (umax - umin), vals.map (· - umin))
+
+theorem putAfCompressed_bits (w : W) (hI : WInv w) (n0 : Node) (rest : List Node)
+    (haf : ¬ (n0.enc.afNbits = 0 ∨ n0.afW = 0)) (hall : ∀ n ∈ n0 :: rest, n.afW > 0) :
+    (putAfCompressed w (n0 :: rest)).bits =
+      w.bits ++ (bitsMSB n0.afW (encAfCol ((n0 :: rest).map (·.afBits))).1 ++
+        bitsMSB 6 (encAfCol ((n0 :: rest).map (·.afBits))).2.1 ++
+        (encAfCol ((n0 :: rest).map (·.afBits))).2.2.flatMap (bitsMSB (encAfCol ((n0 :: rest).map (·.afBits))).2.1)) ∧
+    WInv (putAfCompressed w (n0 :: rest)) := by
+  unfold putAfCompressed encAfCol
+  simp only [haf, if_false]
+  by_cases heq : listMin ((n0 :: rest).map (·.afBits)) 0 = listMax ((n0 :: rest).map (·.afBits)) 0
+  · rw [if_pos heq, if_pos heq]
+    obtain ⟨p1, p2⟩ := putbits_bits w _ n0.afW hI
+    obtain ⟨q1, q2⟩ := putbits_bits _ 0 6 p2
+    exact ⟨by rw [q1, p1]; simp, q2⟩
+  · rw [if_neg heq, if_neg heq]
+    obtain ⟨p1, p2⟩ := putbits_bits w (listMin ((n0 :: rest).map (·.afBits)) 0) n0.afW hI
+    obtain ⟨q1, q2⟩ := putbits_bits _ (valueNbits (listMax ((n0 :: rest).map (·.afBits)) 0 - listMin ((n0 :: rest).map (·.afBits)) 0)) 6 p2
+    -- the fold over nodes is the fold over their field values
+    have hfold : ∀ (l : List Node) (w0 : W), (∀ n ∈ l, n.afW > 0) → ∀ (u k : Nat),
+        l.foldl (fun w n => if n.afW > 0 then w.putbits (n.afBits - u) k else w) w0 =
+        (l.map (·.afBits)).foldl (fun w v => w.putbits ((fun x => x - u) v) k) w0 := by
+      intro l
+      induction l with
+      | nil => intro w0 _ u k; rfl
+      | cons a l ih =>
+        intro w0 h u k
+        simp only [List.foldl_cons, List.map_cons, if_pos (h a (by simp))]
+        exact ih _ (fun n hn => h n (by simp [hn])) u k
+    simp only
+    rw [hfold _ _ hall]
+    obtain ⟨s1, s2⟩ := foldl_putbits_bits _ (fun x => x - listMin ((n0 :: rest).map (·.afBits)) 0)
+      ((n0 :: rest).map (·.afBits)) _ q2
+    exact ⟨by rw [s1, q1, p1]; simp, s2⟩
+
+/-- **associated-field column round trip** (whole dataset): every subset gets its own associated
+field back -/
+theorem af_column_roundtrip (w : W) (hI : WInv w) (n0 : Node) (rest : List Node)
+    (haf : ¬ (n0.enc.afNbits = 0 ∨ n0.afW = 0)) (hall : ∀ n ∈ n0 :: rest, n.afW > 0)
+    (hw : n0.afW ≤ 62) (hv : ∀ n ∈ n0 :: rest, n.afBits < 2^n0.afW)
+    (r : R) (hIr : RInv r) (tail : List Bool)
+    (hb : w.bits ++ r.bits = (putAfCompressed w (n0 :: rest)).bits ++ tail)
+    (cb : Node) (col : List Node) (hcaf : cb.enc.afNbits ≠ 0) (hcw : (mkvalNode cb).afW = n0.afW)
+    (g : Range) (hfull : g.from_ ≤ 0) (hn : g.nsub = (n0 :: rest).length) (hcol : (cb :: col).length = g.nsub) :
+    ∃ r', getAfCompressed r (cb :: col) g =
+        some (r', zipWithNodes (fun n v => { mkvalNode n with afBits := v }) (cb :: col) ((n0 :: rest).map (·.afBits))) ∧
+      r'.bits = tail ∧ RInv r' := by
+  obtain ⟨pb, _⟩ := putAfCompressed_bits w hI n0 rest haf hall
+  rw [pb, List.append_assoc] at hb
+  have hb' := List.append_cancel_left hb
+  generalize hvals : (n0 :: rest).map (·.afBits) = vals at *
+  have hne : vals ≠ [] := by rw [← hvals]; simp
+  have hvv : ∀ v ∈ vals, v < 2^n0.afW := by
+    intro v hvm; rw [← hvals] at hvm
+    obtain ⟨n, hn1, hn2⟩ := List.mem_map.mp hvm
+    rw [← hn2]; exact hv n hn1
+  obtain ⟨hmin1, hmin2⟩ := listMin_spec vals 0 hne
+  obtain ⟨hmax1, hmax2⟩ := listMax_spec vals 0 hne
+  have hminlt := hvv _ hmin2
+  have hmaxlt := hvv _ hmax2
+  have hvlen : vals.length = g.nsub := by rw [← hvals, hn]; simp
+  have hafw1 : 1 ≤ n0.afW := by
+    have := hall n0 (by simp); omega
+  have hp62 : (2:Nat)^n0.afW ≤ 2^62 := Nat.pow_le_pow_right (by omega) hw
+  unfold encAfCol at hb'
+  simp only at hb'
+  rw [← hcw] at hb'
+  by_cases heq : listMin vals 0 = listMax vals 0
+  · rw [if_pos heq] at hb'
+    simp only [List.flatMap_nil, List.append_nil] at hb'
+    obtain ⟨r', e, hbr, hIr'⟩ := getAfCompressed_const r cb col g (listMin vals 0) tail hIr hcaf
+      (by rw [hcw]; omega) hb'
+    refine ⟨r', ?_, hbr, hIr'⟩
+    rw [e, hcw, Nat.mod_eq_of_lt hminlt]
+    congr 1; congr 1
+    symm
+    apply zipWithNodes_const
+    · rw [hcol, hvlen]
+    · intro v hvm
+      have := hmin1 v hvm
+      have := hmax1 v hvm
+      omega
+  · rw [if_neg heq] at hb'
+    have hsp : listMax vals 0 - listMin vals 0 < 2^64 - 1 := by
+      have : (2:Nat)^62 < 2^64 - 1 := by decide
+      omega
+    obtain ⟨k1, k2, k3, k4⟩ := valueNbits_spec _ hsp
+    generalize hk : valueNbits (listMax vals 0 - listMin vals 0) = k at *
+    have hk64 : k < 64 := by
+      by_contra hge
+      have := k4 63 (by omega) (by omega)
+      have : (2:Nat)^62 < 2^63 - 1 := by decide
+      omega
+    obtain ⟨r', e, hbr, hIr'⟩ := getAfCompressed_listed r cb col g (listMin vals 0) k
+      (vals.map (· - listMin vals 0)) tail hIr hcaf (by rw [hcw]; omega) (by omega) hk64 hfull
+      (by simp [hvlen]) hb'
+    refine ⟨r', ?_, hbr, hIr'⟩
+    rw [e, hcw, Nat.mod_eq_of_lt hminlt, zipWithNodes_map, zipWithNodes_map]
+    congr 1; congr 1
+    -- pointwise: (v - umin) % 2^k + umin = v
+    have hpt : ∀ v ∈ vals, (v - listMin vals 0) % 2^k + listMin vals 0 = v := by
+      intro v hvm
+      have := hmin1 v hvm
+      have := hmax1 v hvm
+      rw [Nat.mod_eq_of_lt (by omega)]; omega
+    apply zipWithNodes_congr
+    intro n v hvm
+    simp only [hpt v hvm]
+
+/-! ### character column: writer and round trip -/
+
+theorem reverse_dropWhile_split {α} (p : α → Bool) (l : List α) :
+    l = (l.reverse.dropWhile p).reverse ++ (l.reverse.takeWhile p).reverse := by
+  have := List.takeWhile_append_dropWhile (p := p) (l := l.reverse)
+  have h2 := congrArg List.reverse this
+  rw [List.reverse_append, List.reverse_reverse] at h2
+  exact h2.symm
+
+theorem takeWhile_eq_replicate (l : List Nat) : l.takeWhile (· = 32) = List.replicate (l.takeWhile (· = 32)).length 32 := by
+  apply List.eq_replicate_iff.mpr
+  refine ⟨rfl, ?_⟩
+  intro b hb
+  induction l with
+  | nil => simp at hb
+  | cons a l ih =>
+    rw [List.takeWhile_cons] at hb
+    by_cases h : a = 32
+    · simp only [h, decide_true] at hb
+      rcases List.mem_cons.mp hb with hb | hb
+      · exact hb
+      · exact ih hb
+    · simp [h] at hb
+
+/-- the significant part of a character value: cut to the field, trailing blanks dropped -/
+def trimStr (s : List Nat) (enclen : Nat) : List Nat := ((s.take enclen).reverse.dropWhile (· = 32)).reverse
+
+/-- padding the cut value is padding its significant part -/
+theorem padded_of_trim (s : List Nat) (enclen : Nat) :
+    s.take enclen ++ List.replicate (enclen - s.length) 32 =
+      trimStr s enclen ++ List.replicate (enclen - (trimStr s enclen).length) 32 := by
+  have hsplit := reverse_dropWhile_split (· = 32) (s.take enclen)
+  have hrep := takeWhile_eq_replicate (s.take enclen).reverse
+  generalize hj : ((s.take enclen).reverse.takeWhile (· = 32)).length = j at hrep
+  have hlen : (s.take enclen).length = (trimStr s enclen).length + j := by
+    conv => lhs; rw [hsplit]
+    simp [trimStr, hj]
+  unfold trimStr at hlen ⊢
+  conv => lhs; rw [hsplit, hrep]
+  rw [List.reverse_replicate, List.append_assoc, List.replicate_append_replicate]
+  congr 2
+  rw [List.length_take] at hlen
+  omega
+
+theorem strncmpNe_eq : ∀ (a b : List Nat), a.length = b.length → (∀ c ∈ a, c ≠ 0) → strncmpNe a b = false → a = b := by
+  intro a
+  induction a with
+  | nil => intro b h _ _; cases b with
+    | nil => rfl
+    | cons _ _ => simp at h
+  | cons x xs ih =>
+    intro b h hz hn
+    cases b with
+    | nil => simp at h
+    | cons y ys =>
+      unfold strncmpNe at hn
+      by_cases hxy : x ≠ y
+      · simp [hxy] at hn
+      · have hxy' : x = y := by simpa using hxy
+        have hx0 : x ≠ 0 := hz x (by simp)
+        simp only [hxy, if_false, hx0] at hn
+        rw [hxy', ih ys (by simpa using h) (fun c hc => hz c (by simp [hc])) hn]
+
+/-- values the encoder regards as equal are written as the same octets -/
+theorem padded_eq_of_not_differs (a b : List Nat) (enclen : Nat) (hz : ∀ c ∈ trimStr a enclen, c ≠ 0)
+    (h : strDiffers a b enclen = false) :
+    a.take enclen ++ List.replicate (enclen - a.length) 32 = b.take enclen ++ List.replicate (enclen - b.length) 32 := by
+  unfold strDiffers at h
+  simp only [Bool.or_eq_false_iff, bne_eq_false_iff_eq, decide_eq_false_iff_not, ne_eq, not_not] at h
+  have heq : trimStr a enclen = trimStr b enclen := strncmpNe_eq _ _ (by simpa [trimStr] using h.1) hz (by simpa [trimStr] using h.2)
+  rw [padded_of_trim a, padded_of_trim b, heq]
+
+theorem paddedString_length (n : Node) (h : 0 ≤ n.enc.nbits) : (paddedString n).length = (n.enc.nbits / 8).toNat := by
+  unfold paddedString
+  simp only [List.length_append, List.length_take, List.length_replicate]
+  omega
+
+theorem foldl_putPadString_bits : ∀ (col : List Node) (w : W), WInv w →
+    (col.foldl (fun w n => w.putPadString (valueString n) (n.enc.nbits / 8).toNat) w).bits =
+      w.bits ++ col.flatMap (fun n => (paddedString n).flatMap (bitsMSB 8)) ∧
+    WInv (col.foldl (fun w n => w.putPadString (valueString n) (n.enc.nbits / 8).toNat) w) := by
+  intro col
+  induction col with
+  | nil => intro w h; simp [h]
+  | cons n ns ih =>
+    intro w h
+    obtain ⟨p1, p2⟩ := putPadString_bits w (valueString n) (n.enc.nbits / 8).toNat h
+    obtain ⟨q1, q2⟩ := ih _ p2
+    simp only [List.foldl_cons, List.flatMap_cons]
+    exact ⟨by rw [q1, p1, List.append_assoc]; rfl, q2⟩
+
+/-- does the encoder list the strings of this column one by one -/
+def ccittDiffers (n0 : Node) (col : List Node) : Bool :=
+  col.any fun n => strDiffers (valueString n0) (valueString n) (n.enc.nbits / 8).toNat
+
+/-- **wire format of a compressed character column** -/
+theorem putCcittCompressed_bits (w : W) (hI : WInv w) (n0 : Node) (rest : List Node) :
+    (putCcittCompressed w (n0 :: rest)).bits =
+      w.bits ++ (if ccittDiffers n0 (n0 :: rest) then
+        (strPad none (n0.enc.nbits / 8).toNat).flatMap (bitsMSB 8) ++ bitsMSB 6 (n0.enc.nbits / 8).toNat ++
+          (n0 :: rest).flatMap (fun n => (paddedString n).flatMap (bitsMSB 8))
+        else (paddedString n0).flatMap (bitsMSB 8) ++ bitsMSB 6 0) ∧
+    WInv (putCcittCompressed w (n0 :: rest)) := by
+  unfold putCcittCompressed ccittDiffers
+  simp only
+  by_cases hd : ((n0 :: rest).any fun n => strDiffers (valueString n0) (valueString n) (n.enc.nbits / 8).toNat) = true
+  · simp only [hd, Bool.not_true, Bool.false_eq_true, if_false, if_true]
+    obtain ⟨p1, p2⟩ := foldl_putbits_bits 8 id (strPad none (n0.enc.nbits / 8).toNat) w hI
+    simp only [id] at p1 p2
+    have hps : w.putstring (strPad none (n0.enc.nbits / 8).toNat) =
+        (strPad none (n0.enc.nbits / 8).toNat).foldl (fun w v => w.putbits v 8) w := rfl
+    rw [hps]
+    obtain ⟨q1, q2⟩ := putbits_bits _ (n0.enc.nbits / 8).toNat 6 p2
+    obtain ⟨s1, s2⟩ := foldl_putPadString_bits (n0 :: rest) _ q2
+    exact ⟨by rw [s1, q1, p1]; simp, s2⟩
+  · simp only [hd, Bool.not_false, if_true, Bool.false_eq_true, if_false]
+    obtain ⟨p1, p2⟩ := putPadString_bits w (valueString n0) (n0.enc.nbits / 8).toNat hI
+    obtain ⟨q1, q2⟩ := putbits_bits _ 0 6 p2
+    exact ⟨by rw [q1, p1]; simp [paddedString], q2⟩
+
+/-- **character column round trip** (whole dataset): whether the encoder lists the strings or
+announces one for all, every subset gets back the octets of its own value, blank padded to the
+element width -/
+theorem ccitt_column_roundtrip (w : W) (hI : WInv w) (n0 : Node) (rest : List Node)
+    (h8 : 8 ≤ n0.enc.nbits) (hm8 : n0.enc.nbits % 8 = 0) (h63 : n0.enc.nbits / 8 ≤ 63)
+    (hu : ∀ n ∈ n0 :: rest, n.enc.nbits = n0.enc.nbits)
+    (hz : ∀ c ∈ trimStr (valueString n0) (n0.enc.nbits / 8).toNat, c ≠ 0)
+    (r : R) (hIr : RInv r) (tail : List Bool)
+    (hb : w.bits ++ r.bits = (putCcittCompressed w (n0 :: rest)).bits ++ tail)
+    (cb : Node) (col : List Node) (hcnb : cb.enc.nbits = n0.enc.nbits)
+    (hcu : ∀ n ∈ cb :: col, (mkvalNode n).val = (mkvalNode cb).val ∧ (mkvalNode n).enc.nbits = cb.enc.nbits)
+    (g : Range) (hfull : g.from_ ≤ 0) (hn : g.nsub = (n0 :: rest).length) (hcol : (cb :: col).length = g.nsub) :
+    ∃ r', getCcittCompressed r (cb :: col) g =
+        some (r', zipWithStrs (fun n s => { mkvalNode n with
+            val := (mkvalNode cb).val.setString (some s) (cb.enc.nbits / 8).toNat })
+          (cb :: col) ((n0 :: rest).map (fun n => (paddedString n).map (· % 256)))) ∧
+      r'.bits = tail ∧ RInv r' := by
+  obtain ⟨pb, _⟩ := putCcittCompressed_bits w hI n0 rest
+  rw [pb, List.append_assoc] at hb
+  have hb' := List.append_cancel_left hb
+  have hlen0 := paddedString_length n0 (by omega)
+  have hlenpos : 0 < (n0.enc.nbits / 8).toNat := by omega
+  by_cases hd : ccittDiffers n0 (n0 :: rest) = true
+  · rw [if_pos hd] at hb'
+    have hr0len : (strPad none (n0.enc.nbits / 8).toNat).length = (cb.enc.nbits / 8).toNat := by
+      rw [hcnb]; unfold strPad; simp
+    have hsl : ∀ s ∈ (n0 :: rest).map paddedString, s.length = (n0.enc.nbits / 8).toNat := by
+      intro s hs
+      obtain ⟨n, hn1, rfl⟩ := List.mem_map.mp hs
+      rw [paddedString_length n (by rw [hu n hn1]; omega), hu n hn1]
+    have hflat : (n0 :: rest).flatMap (fun n => (paddedString n).flatMap (bitsMSB 8)) =
+        ((n0 :: rest).map paddedString).flatMap (fun s => s.flatMap (bitsMSB 8)) := by
+      rw [List.flatMap_map]
+    rw [hflat] at hb'
+    obtain ⟨r', e, hbr, hIr'⟩ := getCcittCompressed_listed r cb col g (strPad none (n0.enc.nbits / 8).toNat)
+      (n0.enc.nbits / 8).toNat ((n0 :: rest).map paddedString) tail hIr hr0len (by rw [hr0len, hcnb]; exact hlenpos)
+      hlenpos (by omega) (by intro h; rw [hcnb]; omega) hfull (by simp [hn]) hsl hb'
+    refine ⟨r', ?_, hbr, hIr'⟩
+    rw [e, List.map_map]
+    congr 1; congr 1
+    -- every decoder copy has the same fresh value and width
+    have : ∀ (ns : List Node) (ss : List (List Nat)), (∀ n ∈ ns, (mkvalNode n).val = (mkvalNode cb).val ∧ (mkvalNode n).enc.nbits = cb.enc.nbits) →
+        zipWithStrs (fun n s => { mkvalNode n with val := (mkvalNode n).val.setString (some s) ((mkvalNode n).enc.nbits / 8).toNat }) ns ss =
+        zipWithStrs (fun n s => { mkvalNode n with val := (mkvalNode cb).val.setString (some s) (cb.enc.nbits / 8).toNat }) ns ss := by
+      intro ns
+      induction ns with
+      | nil => intro ss _; cases ss <;> simp [zipWithStrs]
+      | cons a as ih =>
+        intro ss h
+        cases ss with
+        | nil => simp [zipWithStrs]
+        | cons x xs =>
+          simp only [zipWithStrs]
+          rw [(h a (by simp)).1, (h a (by simp)).2, ih xs (fun n hn => h n (by simp [hn]))]
+    rw [this _ _ hcu]
+    rfl
+  · have hd' : ccittDiffers n0 (n0 :: rest) = false := by simpa using hd
+    rw [if_neg hd] at hb'
+    obtain ⟨r', e, hbr, hIr'⟩ := getCcittCompressed_const r cb col g (paddedString n0) tail hIr
+      (by rw [hlen0, hcnb]) (by rw [hlen0]; exact hlenpos) hb'
+    refine ⟨r', ?_, hbr, hIr'⟩
+    rw [e]
+    congr 1; congr 1
+    -- all strings are written as the octets of the first
+    have hall : ∀ n ∈ n0 :: rest, paddedString n = paddedString n0 := by
+      intro n hn1
+      unfold ccittDiffers at hd'
+      rw [List.any_eq_false] at hd'
+      have := hd' n hn1
+      have hnd : strDiffers (valueString n0) (valueString n) (n0.enc.nbits / 8).toNat = false := by
+        rw [hu n hn1] at this; simpa using this
+      unfold paddedString
+      rw [hu n hn1]
+      exact (padded_eq_of_not_differs _ _ _ hz hnd).symm
+    have hlist : (n0 :: rest).map (fun n => (paddedString n).map (· % 256)) =
+        List.replicate (n0 :: rest).length ((paddedString n0).map (· % 256)) := by
+      apply List.eq_replicate_iff.mpr
+      refine ⟨by simp, ?_⟩
+      intro x hx
+      obtain ⟨n, hn1, rfl⟩ := List.mem_map.mp hx
+      rw [hall n hn1]
+    rw [hlist]
+    have hgen : ∀ (ns : List Node) (k : Nat) (s : List Nat), ns.length = k →
+        ns.map (fun n => { mkvalNode n with val := (mkvalNode cb).val.setString (some s) (cb.enc.nbits / 8).toNat }) =
+        zipWithStrs (fun n s => { mkvalNode n with val := (mkvalNode cb).val.setString (some s) (cb.enc.nbits / 8).toNat })
+          ns (List.replicate k s) := by
+      intro ns
+      induction ns with
+      | nil => intro k s _; cases k <;> simp [zipWithStrs, List.replicate]
+      | cons a as ih =>
+        intro k s hk
+        cases k with
+        | zero => simp at hk
+        | succ k => simp only [List.map_cons, List.replicate_succ, zipWithStrs]; rw [ih k s (by simpa using hk)]
+    exact hgen _ _ _ (by rw [hcol, hn])
+
 end Bufr
